@@ -221,7 +221,8 @@ class TextFileStorage(Storage[str]):
                 while self._waiting_for.value < len(self) and self._index[self._waiting_for.value] is not None:
                     self._waiting_for.value += 1
 
-        print(data, file=self._file, flush=True)
+            # must be written before the lock is released, else a reader could see the index entry before the data
+            print(data, file=self._file, flush=True)
 
     def __getitem__(self, global_identifier: int) -> str:
         """
